@@ -9,7 +9,7 @@ for p in sorted(os.listdir(root)):
         continue
     for n in sorted(os.listdir(d)):
         m = json.load(open(os.path.join(d, n, "meta.json")))
-        rows.append((p, n, m.get("wave", "?"), "yes" if m.get("missed_by_first_version_of_the_check") else "no", m.get("what", ""), m.get("neutralised_by", "")))
+        rows.append((p, n, m.get("wave", "?"), "yes" if m.get("missed_by_first_version_of_the_check") else "no", m.get("what", ""), m.get("neutralised_by", "") or ("" if not m.get("not_detected") else "ND:" + m["not_detected"])))
 waves = sorted({r[2] for r in rows if isinstance(r[2], int)})
 head = f"""# Seeded changes
 
@@ -21,7 +21,9 @@ Changes to benoitkugler/gomacro written by independent sub-agents ({len(waves)} 
 with open(os.path.join(root, "README.md"), "w") as f:
     f.write(head)
     for p, n, w, missed, what, neut in rows:
-        if neut:
+        if neut.startswith("ND:"):
+            what += f" (**{neut[3:]}**)"
+        elif neut:
             what += f" (*neutralised* by {neut})"
         f.write(f"| {p} | {n} | {w} | {missed} | {what} |\n")
 print(len(rows), "changes indexed")
